@@ -33,6 +33,10 @@ Step(e) ==
     \* a thread obtains a reference to a scanner another thread built from configuration e.cfg (C14)
     [] e.op = "share"     -> Build(e.cfg, FALSE, TRUE)
     [] e.op = "newiter"   -> NewIter(e.sc, e.inp, e.off)
+    \* the scan iterator e.it has just been validated for was repeated e.rounds times with fresh
+    \* iterators on the same scanner and input: the token stream is a function of configuration
+    \* and input, so none of the repetitions may differ (C14: scans overlapping in time)
+    [] e.op = "rescan"    -> e.differing = 0 /\ e.it \in DOMAIN iters /\ UNCHANGED <<scanners, iters, cache>>
     [] e.op = "next"      -> DoNext(e.it, e.res) /\ ModeOK(e)
     [] e.op = "nextpos"   -> DoNextPos(e.it, e.res, e.sp, e.ep) /\ ModeOK(e)
     [] e.op = "peek"      -> DoPeek(e.it, e.n, [kind |-> e.kind, toks |-> e.toks, target |-> e.target]) /\ ModeOK(e)
